@@ -16,6 +16,7 @@ Clauses of the property and where they are stated:
   * "selected model minimises (1-cw)*objective+cw*max"     tradeoff_spec, argminFirst_spec, select_spec,
                                                            runningArgmin_eq
   * "predict/predict_proba delegate to exactly that model" predict_delegates
+  * the whole `for i in grid.columns` loop in one statement  fit_spec, fit_predictor_minimises_lagrangian
   * TIE TO THE SOURCE (Generated/GridSrc.lean, lifted by harness/lifters/grid.py on every run): the model's
     `srcLattice`/`accumulate`, `nUnits`, `searchFrom`, `grid`, `tradeoff`, `argminFirst`, `relabel` are DEFINED
     over the lifted expressions; `source_lattice_eq`, `source_accumulate_eq` (+ the `_def` bridge lemmas of
@@ -507,6 +508,54 @@ theorem predict_delegates {P Y : Type} (run : P → Y) (preds : List P) (best : 
     predictWith run preds best = some (run preds[best]) := by
   simp [predictWith, hb]
 
+/-! ### the whole loop of `GridSearch.fit` -/
+
+/-- THE PROPERTY IN ONE STATEMENT, for the loop `for i in grid.columns: …` as modelled by `fitLoop` (weights =
+    constraint weights [+ objective weights], lifted relabelling, lifted dummy rule, base learner = parameter, records
+    computed from the trained predictor, lifted trade-off loss and arg-min):  with a base learner that minimises the
+    weighted 0/1 error over a class `H` of labelings,
+      * one predictor per grid point, and each minimises the weighted 0/1 error on the data relabelled / reweighted
+        for ITS OWN multiplier vector over `H` (the DummyClassifier shortcut included),
+      * `objectives_` / `gammas_` are the values of exactly those predictors,
+      * `best_idx_` is in range, minimises `(1-cw)·objective + cw·max(gamma)` and is the first such index. -/
+theorem fit_spec (span : Bool) (cwOf : List Rat → List Rat) (ow : List Rat)
+    (learner : List (Nat × Rat) → List Nat) (objOf : List Nat → Rat) (gamOf : List Nat → List Rat)
+    (cw : Rat) (grid : List (List Rat)) (out : FitOut) (H : List Nat → Prop)
+    (hex : ∀ w h', H h' → weighted01 (relabel w) (learner (relabel w)) ≤ weighted01 (relabel w) h')
+    (h : fitLoop span cwOf ow learner objOf gamOf cw grid = some out) :
+    out.preds = grid.map (fun lam => trainAt learner (relabel (combineWeights span (cwOf lam) ow))) ∧
+    (∀ lam ∈ grid, ∀ h', H h' →
+      weighted01 (relabel (combineWeights span (cwOf lam) ow))
+          (trainAt learner (relabel (combineWeights span (cwOf lam) ow))) ≤
+        weighted01 (relabel (combineWeights span (cwOf lam) ow)) h') ∧
+    out.objectives = out.preds.map objOf ∧ out.gammas = out.preds.map gamOf ∧
+    ∃ losses : List Rat, out.preds.map (fun p => tradeoff cw (objOf p) (gamOf p)) = losses.map some ∧
+      ∃ hb : out.best < losses.length, (∀ y ∈ losses, losses[out.best] ≤ y) ∧
+        ∀ (j : Nat) (hj : j < out.best), losses[out.best] < losses[j]'(by omega) := by
+  simp only [fitLoop, Option.map_eq_some_iff] at h
+  obtain ⟨b, hsel, rfl⟩ := h
+  refine ⟨rfl, ?_, by simp, by simp, ?_⟩
+  · intro lam _ h' hh'
+    exact trainAt_minimises learner H _ (hex _) h' hh'
+  · obtain ⟨losses, hl, hspec⟩ := select_spec cw _ b hsel
+    refine ⟨losses, ?_, hspec⟩
+    rw [← hl]; simp only [List.map_map]; rfl
+
+/-- … hence (reduction identity of C07: `error + λ·γ = K − c·Σ wᵢhᵢ`, `c > 0`, `w` = the combined signed weights)
+    every trained predictor minimises `error + λ·γ` of its own multiplier over the class. -/
+theorem fit_predictor_minimises_lagrangian (learner : List (Nat × Rat) → List Nat) (H : List Nat → Prop)
+    (w : List Rat) (K c : Rat) (hc : 0 < c) (F : List Nat → Rat)
+    (hF : ∀ h, F h = K - c * dot w (toRat h))
+    (hex : ∀ h', H h' → weighted01 (relabel w) (learner (relabel w)) ≤ weighted01 (relabel w) h')
+    (hshape : (learner (relabel w)).length = w.length ∧ ∀ x ∈ learner (relabel w), x = 0 ∨ x = 1)
+    (hH : ∀ h', H h' → w.length = h'.length ∧ ∀ x ∈ h', x = 0 ∨ x = 1) :
+    ∀ h', H h' → F (trainAt learner (relabel w)) ≤ F h' := by
+  intro h' hh'
+  obtain ⟨hl, hb⟩ := trainAt_shape learner w hshape
+  obtain ⟨hl', hb'⟩ := hH h' hh'
+  exact (best_response_argmin w K c hc F hF _ h' hl.symm hl' hb hb').mp
+    (trainAt_minimises learner H w hex h' hh')
+
 /-! Non-vacuity: concrete inputs evaluated by the kernel. -/
 example : lattice [true, false] false 1 = [[-1, 0], [0, 0], [0, 1], [1, 0]] := by decide +kernel
 example : lattice [false, false, false] true 2 =
@@ -530,6 +579,8 @@ example : GridSrc.noOvershoot 7 2 2 0 = true ∧ GridSrc.noOvershoot 9 0 2 2 = t
 example : searchFrom [true, true] false 7 9 0 = some 2 ∧ searchFrom [true, true] false 7 9 4 = some 4 := by
   decide +kernel
 example : runningArgmin [3, 1, 2, 1] = some 1 := by decide +kernel
+example : trainAt (fun _ => [1, 0, 1]) (relabel [-1, -2, 0]) = [0, 0, 0] ∧
+    trainAt (fun _ => [1, 0, 1]) (relabel [-1, 2, 0]) = [1, 0, 1] := by decide +kernel
 example : select (1/2) [(1/4, [-1/8, 1/8]), (0, [1/2]), (1/8, [1/8, 0])] = some 2 := by decide +kernel
 example : (lattice [true, true] false 1).take 2 = [[-1, 0], [0, -1]] := by decide +kernel
 
